@@ -138,6 +138,11 @@ var handProgs = []hp{
 	{"string-index", "", "s := \"héllo\"\nb := s[0]\nr := []rune(s)\nprintln b, len(r), string(r[1]), s[1:3] != \"\"\nfor i, c := range \"ab\" {\n\tprintln i, c\n}\n"},
 	{"string-concat", "", "a, b := \"x\", \"y\"\nc := a + b\nc += \"!\"\nprintln c, a < b, c == \"xy!\"\n"},
 	{"named-type", "", "type Celsius float64\n\nfunc (c Celsius) F() float64 {\n\treturn float64(c)*9/5 + 32\n}\n\nprintln Celsius(100).F()\n"},
+	{"type-switch-composite-small", "", "var v any\nswitch v.(type) {\ncase []int:\ncase []string:\n}\n"},
+	{"type-switch-composite", "", "func kind(v any) string {\n\tswitch v.(type) {\n\tcase []int:\n\t\treturn \"ints\"\n\tcase []string, map[string]int:\n\t\treturn \"strings or map\"\n\tcase *int, *string:\n\t\treturn \"ptr\"\n\tcase func(int) string:\n\t\treturn \"func\"\n\t}\n\treturn \"other\"\n}\n\nprintln kind([1]), kind([\"a\"])\n"},
+	{"type-alias-small", "", "type ID = int\n\nvar i ID = 3\nprintln i+1\n"},
+	{"type-alias-slice", "", "type L = []int\n\nvar l L = [1, 2]\nprintln len(l)\n"},
+	{"type-alias-struct", "", "type P = struct {\n\tnext *int\n\tv    int\n}\n\nvar p P\nprintln p.v\n"},
 	{"type-alias-conv", "", "type ID = int\ntype Names []string\n\nvar i ID = 3\nn := Names{\"a\"}\nn = append(n, \"b\")\nprintln i+1, len(n), float64(i)/2\n"},
 	{"bit-ops", "", "x := 6\nprintln x&3, x|1, x^2, x<<2, x>>1, x&^2\nx <<= 1\nx |= 1\nprintln x, ^x\n"},
 	{"bool-ops", "", "a, b, c := true, false, true\nprintln a && b || !c, a != b, !(a && c)\n"},
